@@ -14,7 +14,7 @@ const N: usize = 512;
 /// invariant (chunk size c valid, next_to_request a multiple of c below 512, an outstanding
 /// request always names next_to_request), with an arbitrary response (any cookie, any length
 /// 0..=516, any bytes). Byte-wise claims are checked at one arbitrary index `i` (= for all i).
-fn step(c: u16) {
+fn step(c: u16) -> bool {
     // ---- all symbolic values up front
     let client0: [u8; N] = kani::any();
     let k: u16 = kani::any();
@@ -74,11 +74,11 @@ fn step(c: u16) {
     }
 
     kani::cover!(should_accept && !filled && filled1, "accepted last chunk: becomes filled");
-    kani::cover!(should_accept && !filled1 && i >= off && i < off + cs, "accepted chunk, not yet filled");
     kani::cover!(outstanding && cookie != exp_cookie, "stale cookie refused");
     kani::cover!(outstanding && cookie == exp_cookie && rlen + 4 == c as usize, "short chunk refused");
     kani::cover!(outstanding && cookie == exp_cookie && rlen == c as usize + 4, "long chunk refused");
     kani::cover!(!outstanding && cookie == exp_cookie && rlen == c as usize, "unsolicited answer refused");
+    should_accept && !filled1 && i >= off && i < off + cs
 }
 
 macro_rules! step_harness {
@@ -86,7 +86,17 @@ macro_rules! step_harness {
         #[kani::proof]
         #[kani::unwind(520)]
         fn $name() {
-            step($c);
+            let partial = step($c);
+            kani::cover!(partial, "accepted chunk, not yet filled");
+        }
+    };
+    // chunk size 512: the single chunk always completes the filter
+    ($name:ident, $c:expr, whole) => {
+        #[kani::proof]
+        #[kani::unwind(520)]
+        fn $name() {
+            let partial = step($c);
+            assert!(!partial, "a 512-byte chunk completes the filter");
         }
     };
 }
@@ -97,7 +107,7 @@ step_harness!(c34_step_32, 32);
 step_harness!(c34_step_64, 64);
 step_harness!(c34_step_128, 128);
 step_harness!(c34_step_256, 256);
-step_harness!(c34_step_512, 512);
+step_harness!(c34_step_512, 512, whole);
 
 /// Constructor: exactly the chunk sizes that are multiples of 4 dividing 512; initial state
 /// satisfies the representation invariant used by `step`.
@@ -123,7 +133,7 @@ fn c34_new() {
 /// names exactly (c, next); the moment `is_filled` becomes true the filter is the server's.
 /// (The pre-state is constructed: client byte i = server byte i where the invariant demands it,
 /// an arbitrary byte elsewhere; the post-condition is checked at an arbitrary index i.)
-fn step_inv(c: u16) {
+fn step_inv(c: u16) -> bool {
     let server: [u8; N] = kani::any();
     let junk: [u8; N] = kani::any();
     let k: u16 = kani::any();
@@ -168,16 +178,26 @@ fn step_inv(c: u16) {
         None => assert!(!filled1, "filled filter is exposed"),
     }
     kani::cover!(!filled && filled1, "transfer completes");
-    kani::cover!(!filled1, "transfer in progress");
     kani::cover!(filled, "refresh round after completion");
+    !filled1
 }
 
 macro_rules! step_inv_harness {
-    ($name:ident, $c:expr, $($tier:tt)*) => {
+    ($name:ident, $c:expr,) => {
         harness! {
             #[kani::unwind(520)]
             fn $name() {
-                step_inv($c);
+                let in_progress = step_inv($c);
+                kani::cover!(in_progress, "transfer in progress");
+            }
+        }
+    };
+    ($name:ident, $c:expr, whole) => {
+        harness! {
+            #[kani::unwind(520)]
+            fn $name() {
+                let in_progress = step_inv($c);
+                assert!(!in_progress, "a 512-byte chunk completes the transfer");
             }
         }
     };
@@ -189,7 +209,7 @@ step_inv_harness!(c34_inv_32, 32,);
 step_inv_harness!(c34_inv_64, 64,);
 step_inv_harness!(c34_inv_128, 128,);
 step_inv_harness!(c34_inv_256, 256,);
-step_inv_harness!(c34_inv_512, 512,);
+step_inv_harness!(c34_inv_512, 512, whole);
 
 /// Whole transfer from `new(c)`: 512/c rounds of next_request -> (server) to_response ->
 /// handle_response with arbitrary cookies; afterwards the client holds exactly the server's 512
